@@ -45,6 +45,9 @@ pub fn gen_case(rng: &mut Rng) -> Case16 {
     if base.input.len() > 6000 {
         base.input.truncate(6000);
     }
+    if cfg!(miri) && base.input.len() > 120 {
+        base.input.truncate(120);
+    }
     let multiline = rng.chance(1, 3);
     if multiline {
         base.pattern = rng.pick(ML_PATTERNS).to_string();
@@ -314,7 +317,7 @@ pub fn check_case(
 
 pub fn run(ctx: &Ctx) -> Report {
     let n = ctx.cases(400, 20_000);
-    let max_points = if ctx.is_thorough() { 400 } else { 40 };
+    let max_points = if cfg!(miri) { 4 } else if ctx.is_thorough() { 400 } else { 40 };
     crate::par_cases(ctx, 16, n, |rng, _i, rep| {
         let case = gen_case(rng);
         let legs = gen_legs(rng);
